@@ -202,6 +202,8 @@ def run_property(prop, tier, seed, replay=None):
         progs, cases, hist = gen(rng, tier)
     work = os.path.join(CACHE, "work", "%s-%s" % (prop, tier))
     records, build_fail = run_programs("X", "drv_ext.hpp", progs, cases, configs, work, exe, nshards=16, name="ext")
+    import incoq
+    incoq_n = incoq.sample_check(rep, prop, "X", records, tier, seed, work, replay)
     for (sh_, cfg, blog) in {c: (s_, c, l) for (s_, c, l) in reversed(build_fail)}.values():
         rep.violation("extents driver shard %d no longer builds in configuration %s" % (sh_, cfg),
                       {"obligation": "corr:ext/build/%d/%s" % (sh_, cfg), "log": blog[-3000:], "signature": "build:ext:%s" % cfg}, True)
@@ -237,7 +239,7 @@ def run_property(prop, tier, seed, replay=None):
                       {"obligation": "proof:Properties_%s" % prop, "theorems": rep.broken_theorems, "log": rep.proof_log,
                        "signature": "proof:%s" % prop}, no_failing_input=not any(not nf for (_, nf) in rep.violations))
     rep.cov.update({
-        "evaluations": evaluations, "distinct_nontrivial": len(nontriv),
+        "evaluations": evaluations, "distinct_nontrivial": len(nontriv), "evaluated_inside_coq_too": incoq_n,
         "rule": "programs = extents types (8 index types x ranks x static/dynamic masks with seeded static values incl. imax) x construction path "
                 "(pack/array/span x element type int8..uint64 or a class convertible to index_type x dynamic-only/all values), ordered pairs for conversion "
                 "(compatible patterns, precondition-satisfying values) and comparison (any two types, also of different rank). non-trivial = mixed static/dynamic "
